@@ -648,6 +648,8 @@ def _split_by_fh(y, fh, X=None):
     relative and absolute horizons"""
     if X is not None:
         check_equal_time_index(y, X)
+    else:
+        check_time_index(y.index)
     fh = check_fh(fh)
     idx = fh.to_pandas()
     index = y.index
